@@ -21,6 +21,8 @@ ASSUMPTIONS = [
     "integer radiometry: SAD and census compared bit for bit, SSD to 1e-6 relative (float32 sums), ZNCC within "
     "1e-5 + float32 rounding bound of the products; zero-variance windows must give exactly 0",
     "images at least as large as the matching window (smaller ones are out of domain)",
+    "image samples are finite (what the file reader guarantees: NaN / inf nodata samples become -9999), except with zncc at "
+    "subpix 1, whose window sums deliberately skip NaN samples: there, pixels flagged no-data may hold NaN",
 ]
 GATES = {
     "fractional_negative_disparity_at_left_edge": 1,
@@ -32,7 +34,7 @@ GATES = {
     "zero_variance_window": 1,
     "width_equals_window": 1,
     "right_volume_checked": 5,
-    "multiband": 2, "right_bands_in_another_order": 1,
+    "multiband": 2, "right_bands_in_another_order": 1, "zncc_with_nodata_pixels_holding_nan_samples": 2,
     "roi_offset_coordinates": 2,
     "costs_compared": 100000,
 }
@@ -80,6 +82,8 @@ def cases(spec, ctx):
             yield {"work": "directed", "what": "grid-float", "sp": sp}
         yield {"work": "directed", "what": "nodata-right-frac"}
         yield {"work": "directed", "what": "zero-variance"}
+        for k in range(3):
+            yield {"work": "directed", "what": "nan-nodata", "method": "zncc", "sp": 1, "i": k}
         yield {"work": "directed", "what": "width-eq-window"}
         for m in ("sad", "ssd", "census", "zncc"):
             yield {"work": "directed", "what": "multiband", "method": m}
@@ -127,6 +131,8 @@ def build(case, ctx):
         subpix, rmk, ikind = 4, "sparse", "straddle"
     elif what == "zero-variance":
         method, tex, w = "zncc", "patches", 3
+    elif what == "nan-nodata":
+        subpix, lmk, rmk = case["sp"], "sparse", "sparse"
     elif what == "width-eq-window":
         w = 5
         cols = 5
@@ -148,6 +154,15 @@ def build(case, ctx):
     if bands > 1:
         band = gen.BAND_NAMES[int(rng.integers(0, bands))]
     lm, rm = gen.mask(rng, rows, cols, lmk), gen.mask(rng, rows, cols, rmk)
+    # datasets built through the API may hold NaN samples on the pixels their mask flags as no data
+    # (only explored where the code provides for it: zncc's window sums skip NaN samples (nancumsum); sad/ssd derive their
+    # maximal cost from min/max of the images and the sub-pixel interpolation spreads a NaN over its neighbours, so NaN samples
+    # with those are outside the domain - the file reader never produces them, it writes -9999 instead)
+    nan_nodata = (rng.random() < 0.3 or what == "nan-nodata") and method == "zncc" and subpix == 1
+    if nan_nodata:
+        for im_, m_ in ((l, lm), (r, rm)):
+            if m_ is not None:
+                im_[..., np.asarray(m_) == 1] = np.nan
     grid = None
     if ikind.startswith("grid"):
         lo, hi = -int(rng.integers(1, 5)), int(rng.integers(0, 5))
@@ -173,7 +188,7 @@ def build(case, ctx):
     desc = {
         "method": method, "window": w, "subpix": subpix, "shape": [rows, cols], "texture": tex, "bands": bands,
         "band": band, "left_mask": lmk, "right_mask": rmk, "interval": ikind, "col0": col0, "row0": row0,
-        "validation": validation, "right_bands": rbands,
+        "validation": validation, "right_bands": rbands, "nan_nodata": bool(nan_nodata and (np.isnan(l).any() or np.isnan(r).any())),
         "disp": [int(np.min(disp[0])), int(np.max(disp[1]))],
     }
     return desc, left, right, band
@@ -290,6 +305,7 @@ def run_case(case, ctx):
     ctx.gate("grid_with_non_integer_bounds", int(desc["interval"] == "grid-float"))
     ctx.gate("width_equals_window", int(cols == w))
     ctx.gate("multiband", int(desc["bands"] > 1))
+    ctx.gate("zncc_with_nodata_pixels_holding_nan_samples", int(desc["nan_nodata"] and desc["method"] == "zncc"))
     ctx.gate("right_bands_in_another_order", int(bool(desc["right_bands"])))
     ctx.gate("roi_offset_coordinates", int(desc["col0"] > 0))
     if rmsk is not None and subpix > 1 and (rmsk == 1).any():
